@@ -19,9 +19,10 @@ One JSON answer per line: `iters` (= i - 1), `iterations` (info), per member the
 
 With `"eigs": true` (one start vector) the answer also contains the result of the model's `lanczosEigs`
 (`eigvals`, `eigvecs` = columns) computed with `eigh := eighJacobi` (cyclic Jacobi rotations on the real
-parts of the dense tridiagonal matrix — an EXECUTABLE stand-in for LAPACK; the theorems only need the
-contract `T y_j = θ_j y_j`), together with `eigh_residual` = max_j ‖T y_j − θ_j y_j‖_∞ / max(1, ‖T‖_max),
-the measured defect of that contract on this very run, and `eigh_orth` = max |YᵀY − 1|.
+parts of the dense tridiagonal matrix — an EXECUTABLE stand-in for LAPACK; `C14_lanczos_eigs` needs the
+contract `T y_j = θ_j y_j`, `C14_lanczos_eigs_unit` in addition orthonormal columns `y_j`), together with
+`eigh_residual` = max_j ‖T y_j − θ_j y_j‖_∞ / max(1, ‖T‖_max) and `eigh_orth` = max |YᵀY − 1|, the measured
+defects of the two parts of that contract on this very run (the harness requires both ≤ 1e-10).
 -/
 
 open Lean (Json)
